@@ -146,6 +146,81 @@ pub fn c04_sessions(pools: &Pools, r: &mut Report) {
     }
 }
 
+/// LONG sessions: one parser object parses thousands of tokens (right key / wrong key / forged / other footer in a seeded
+/// order): behaviour must not drift with the number of calls made before
+pub fn c04_long_sessions(pools: &Pools, seed: u64, thorough: bool, r: &mut Report) {
+    let protos: Vec<P> = if thorough { ALL.to_vec() } else { vec![P::V4L, P::V2L, P::V4P, P::V3L, P::V1L] };
+    for &p in &protos {
+        if pools.count(p) < 2 {
+            continue;
+        }
+        let keys = vec![pools.key(p, 0), pools.key(p, 1)];
+        let mut rng = Rng::new(seed, "c04-long", p as u64);
+        let toks: Vec<(String, usize)> = (0..6).filter_map(|i| json_token(p, &keys[i % 2], i, Some("ftr"), Some("ia")).map(|t| (t, i % 2))).collect();
+        if toks.len() != 6 {
+            r.inconclusive.push(format!("C04 long session: cannot build tokens for {}", p.name()));
+            continue;
+        }
+        let n = if thorough { 20_000 } else if p == P::V3L || p == P::V1L { 1200 } else { 3000 };
+        for (batteries, dp) in [(false, false), (true, true)] {
+            let mut steps = Vec::with_capacity(n);
+            let mut expect = Vec::with_capacity(n);
+            let mut what = Vec::with_capacity(n);
+            for _ in 0..n {
+                let (t, owner) = &toks[rng.below(toks.len())];
+                match rng.below(4) {
+                    0 | 1 => {
+                        steps.push(PStep::Parse { token: t.clone(), key: *owner });
+                        expect.push(true);
+                        what.push("own key".to_string());
+                    }
+                    2 => {
+                        steps.push(PStep::Parse { token: t.clone(), key: 1 - *owner });
+                        expect.push(false);
+                        what.push("other key".to_string());
+                    }
+                    _ => {
+                        let mut f: Vec<char> = t.chars().collect();
+                        let pos = t.rfind('.').unwrap_or(t.len()) - 3;
+                        f[pos] = if f[pos] == 'A' { 'B' } else { 'A' };
+                        steps.push(PStep::Parse { token: f.into_iter().collect(), key: *owner });
+                        expect.push(false);
+                        what.push("one character changed".to_string());
+                    }
+                }
+            }
+            let c = SessionCase { prop: "C04".into(), p, batteries, default_parser: dp, keys: keys.clone(), footer: Some("ftr".into()), ia: if p.has_assertion() { Some("ia".into()) } else { None }, steps, expect, what };
+            // evaluate without the per-step bookkeeping of session_eval (thousands of steps): count, and report the first deviation
+            let cfg = ParserCfg { footer: c.footer.clone(), assertion: c.ia.clone(), default_parser: dp, ..Default::default() };
+            let outs = session(p, batteries, &c.keys, &cfg, &c.steps);
+            let tag = format!("{}/{}", p.name(), if batteries { "batteries-default" } else { "generic" });
+            r.evaluations += outs.len() as u64;
+            if outs.len() != c.expect.len() {
+                r.inconclusive.push(format!("C04 long session on {}: {} outcomes for {} parses", tag, outs.len(), c.expect.len()));
+                continue;
+            }
+            let mut dev = None;
+            for (i, (o, want)) in outs.iter().zip(&c.expect).enumerate() {
+                if o.is_ok() != *want || o.is_panic() {
+                    dev = Some((i, o.brief(), c.what[i].clone()));
+                    break;
+                }
+            }
+            match dev {
+                Some((i, got, what)) => r.violation(
+                    format!("C04 long-session-deviates {} {}", tag, if c.expect[i] { "rejects-valid" } else { "accepts-invalid" }),
+                    format!("{}: ONE parser object, parse #{} of {} ({}) gave {} — a fresh parser answers the opposite", tag, i + 1, n, what, got),
+                    json!({"cmd": "C04", "note": "long-session case: re-run the check", "protocol": p.name(), "parse_no": i + 1}),
+                ),
+                None => {
+                    r.count(&format!("{} long session: all parses as a fresh parser would answer", tag));
+                    r.distinct(format!("{}|long-session|{}", tag, n));
+                }
+            }
+        }
+    }
+}
+
 /// C05 sessions: one parser, the expected footer is changed between parses
 pub fn c05_sessions(pools: &Pools, r: &mut Report) {
     for &p in &ALL {
@@ -493,6 +568,7 @@ pub fn run_c04(tier: &str, seed: u64) -> Report {
     total.merge(r);
     let mut rs = Report::new();
     c04_sessions(&pools, &mut rs);
+    c04_long_sessions(&pools, seed, thorough, &mut rs);
     total.merge(rs);
     for &p in &ALL {
         for l in LAYERS {
@@ -519,7 +595,7 @@ pub fn replay_c04(case: &Value) -> Report {
     r
 }
 
-pub const RULE_C04: &str = "per protocol 24 (thorough 1500) authentic tokens built at core/generic/batteries layer (footer none/text/empty, assertion none/text) are presented at the same layer under every single-bit neighbour of the key (all 256 bits of symmetric and Ed25519 public keys, all 392 bits of the compressed P-384 point, all bits of the RSA public-key DER), all-zero, all-one, 50 random, rotated/reversed/half-zeroed keys and every other pool key; oracle: any Ok is a violation (a key that fails to parse counts as 'fails'); distinct_nontrivial = distinct (protocol, layer, key class, rejection variant)";
+pub const RULE_C04: &str = "per protocol 24 (thorough 1500) authentic tokens built at core/generic/batteries layer (footer none/text/empty, assertion none/text) are presented at the same layer under every single-bit neighbour of the key (all 256 bits of symmetric and Ed25519 public keys, all 392 bits of the compressed P-384 point, all bits of the RSA public-key DER), all-zero, all-one, 50 random, rotated/reversed/half-zeroed keys and every other pool key; parser sessions incl. LONG ones (one parser object, 3000 (thorough 20000) parses of right-key / other-key / one-character-changed tokens in a seeded order); oracle: any Ok under another key is a violation (a key that fails to parse counts as 'fails'); distinct_nontrivial = distinct (protocol, layer, key class, rejection variant)";
 
 // ==========================================================================================
 // C05
